@@ -172,7 +172,11 @@ def s_h1_send_error(vc):
     from props.httpstream import mk_response
     cstate = conn_state(vc, "cstate")
     has_response = vc.case("response_started", [False, True])
-    srv, client = mk_h1_server(vc, cstate, mk_response(vc) if has_response else None)
+    # the response head already written for this exchange (if any) has an arbitrary status: an interim 1xx (mitmproxy's own 100 Continue,
+    # a relayed 102/103) does not complete the exchange, so the error page still follows it; nothing may follow a final response head or a
+    # 101 (the connection has switched protocols)
+    rstatus = vc.sym_int("response_status", lo=100, hi=599)
+    srv, client = mk_h1_server(vc, cstate, mk_response(vc, status_code=rstatus) if has_response else None)
     code = vc.sym_enum("code", ErrorCode)
     msg = vc.sym_str("message")
     page = vc.sym_bytes("page")
@@ -195,7 +199,8 @@ def s_h1_send_error(vc):
         vc.ensure("closed.nothing_sent", kinds == [] and made == [])
         return
     c400, c413, c502 = spec_status(vc, code)
-    want_page = (not has_response) and vc.branch(Or(c400, c413, c502))
+    final_head_written = has_response and vc.branch(Not(And(rstatus >= 100, rstatus <= 199, rstatus != 101)))
+    want_page = (not final_head_written) and vc.branch(Or(c400, c413, c502))
     if want_page:
         vc.ensure("page.trace", kinds == ["SendData", "CloseConnection"])
         vc.ensure("page.built_once", len(made) == 1)
